@@ -1,36 +1,62 @@
 ------------------------------ MODULE LinkDial ------------------------------
-(* C05 — dialing peer X at an address (transport/common/quic Transport.DialPeer + Dialer, transport/controller
-   linkDialer with retry/backoff).  The address is answered by whoever currently owns it (the intended peer X, an
-   impostor Y with its own key, or nobody); the owner may change a bounded number of times.
-   One dial attempt performs a handshake with the current owner: the TLS layer authenticates the owner's real
-   identity, so the resulting link names the owner.  The fixed DialPeer reports success only if that identity is X;
-   otherwise the attempt fails and the link dialer retries after a backoff (the link to Y, if any, is an ordinary link
-   to Y and disappears when Y goes away).  BugAcceptAny re-creates the tree as found (D6): the dial is resolved with
-   whatever link came back and is never retried. *)
+(* C05 — dialing a peer at an address (transport/common/quic Transport.DialPeer + Dialer, transport/controller
+   linkDialer with retry/backoff).  The address is answered by whoever currently owns it (the intended peer, another
+   peer with its own key, or nobody); the owner may change a bounded number of times.
+
+   Requests r \in Req each ask for a link to Target[r] at the one address.  The transport keeps ONE dialer per address
+   (Transport.dialers[addr]): a request that finds a dialer running joins it and receives the same result.  One dial
+   attempt performs a handshake with the current owner; the TLS layer authenticates the owner's real identity, so the
+   resulting link names the owner.  DialPeer reports success to request r only if that identity is Target[r]; otherwise
+   the attempt fails for r and its link dialer retries after a backoff.  The link to the owner, if any, is an ordinary link
+   to the owner: while it is registered for the address further attempts are refused ("already connected"), and it
+   disappears when the owner goes away.
+
+   Bug = "acceptAny"    re-creates the tree as found (D6): the request is resolved with whatever link came back.
+   Bug = "dialerTarget" re-creates a plausible refactor: the check is made by the shared dialer against the target of the
+                        request that created it, so a joined request for another peer is resolved with that link. *)
 EXTENDS Naturals, FiniteSets, TLC
-CONSTANTS MaxChanges, BugAcceptAny
-VARIABLES owner,      \* who answers at the address: "X", "Y", "none"
+CONSTANTS Req, Target, MaxChanges, Bug
+Owner == {Target[r] : r \in Req} \cup {"none"}
+VARIABLES owner,      \* who answers at the address
           changes,
-          dial,       \* "idle" | "trying" | "backoff" | "done"
-          result,     \* remote identity of the link the dial was resolved with ("" if none)
-          linkAt      \* identity of the transport-level link currently established at the address ("" if none)
-vars == <<owner, changes, dial, result, linkAt>>
-Init == owner \in {"X", "Y", "none"} /\ changes = 0 /\ dial = "idle" /\ result = "" /\ linkAt = ""
+          st,         \* [Req -> "idle" | "trying" | "joined" | "backoff" | "done"]
+          result,     \* [Req -> remote identity of the link the request was resolved with, "" if none]
+          creator,    \* the request that created the running dialer, or "none"
+          linkAt      \* identity of the transport-level link registered for the address ("" if none)
+vars == <<owner, changes, st, result, creator, linkAt>>
+Init == /\ owner \in Owner /\ changes = 0 /\ st = [r \in Req |-> "idle"] /\ result = [r \in Req |-> ""]
+        /\ creator = "none" /\ linkAt = ""
 OwnerChanges == /\ changes < MaxChanges /\ changes' = changes + 1
-                /\ owner' \in {"X", "Y", "none"} \ {owner}
+                /\ owner' \in Owner \ {owner}
                 /\ linkAt' = ""                       \* the old owner's link dies with it
-                /\ UNCHANGED <<dial, result>>
-Start == dial = "idle" /\ dial' = "trying" /\ UNCHANGED <<owner, changes, result, linkAt>>
-Attempt == /\ dial = "trying"
-           /\ IF owner = "none" THEN dial' = "backoff" /\ UNCHANGED <<result, linkAt>>
-              ELSE /\ linkAt' = owner
-                   /\ IF owner = "X" \/ BugAcceptAny THEN dial' = "done" /\ result' = owner
-                      ELSE dial' = "backoff" /\ UNCHANGED result
-           /\ UNCHANGED <<owner, changes>>
-Retry == dial = "backoff" /\ dial' = "trying" /\ UNCHANGED <<owner, changes, result, linkAt>>
-Next == OwnerChanges \/ Start \/ Attempt \/ Retry
-Spec == Init /\ [][Next]_vars /\ WF_vars(Start) /\ WF_vars(Attempt) /\ WF_vars(Retry)
+                /\ UNCHANGED <<st, result, creator>>
+Start(r) == st[r] = "idle" /\ st' = [st EXCEPT ![r] = "trying"] /\ UNCHANGED <<owner, changes, result, creator, linkAt>>
+\* DialPeer entry: CheckAlreadyConnected, then create or join the dialer of the address
+Enter(r) ==
+  /\ st[r] = "trying"
+  /\ IF linkAt # "" /\ linkAt # Target[r] THEN st' = [st EXCEPT ![r] = "backoff"] /\ UNCHANGED creator   \* connected to a different peer: error
+     ELSE IF linkAt # "" THEN UNCHANGED <<st, creator>>                                                  \* already connected to the target: nothing to dial
+     ELSE st' = [st EXCEPT ![r] = "joined"] /\ creator' = (IF creator = "none" THEN r ELSE creator)
+  /\ UNCHANGED <<owner, changes, result, linkAt>>
+Accepts(r, who) == \/ who = Target[r]
+                   \/ Bug = "acceptAny"
+                   \/ (Bug = "dialerTarget" /\ who = Target[creator])
+\* the dialer's attempt completes: every joined request gets the outcome
+Attempt ==
+  /\ creator # "none" /\ creator' = "none"
+  /\ LET J == {r \in Req : st[r] = "joined"} IN
+     IF owner = "none" THEN st' = [r \in Req |-> IF r \in J THEN "backoff" ELSE st[r]] /\ UNCHANGED <<result, linkAt>>
+     ELSE /\ linkAt' = owner
+          /\ IF Bug = "dialerTarget" /\ owner # Target[creator]
+             THEN st' = [r \in Req |-> IF r \in J THEN "backoff" ELSE st[r]] /\ UNCHANGED result
+             ELSE /\ st' = [r \in Req |-> IF r \in J THEN (IF Accepts(r, owner) THEN "done" ELSE "backoff") ELSE st[r]]
+                  /\ result' = [r \in Req |-> IF r \in J /\ Accepts(r, owner) THEN owner ELSE result[r]]
+  /\ UNCHANGED <<owner, changes>>
+Retry(r) == st[r] = "backoff" /\ st' = [st EXCEPT ![r] = "trying"] /\ UNCHANGED <<owner, changes, result, creator, linkAt>>
+Next == OwnerChanges \/ Attempt \/ \E r \in Req : Start(r) \/ Enter(r) \/ Retry(r)
+Spec == Init /\ [][Next]_vars /\ WF_vars(Attempt) /\ \A r \in Req : WF_vars(Start(r)) /\ WF_vars(Retry(r)) /\ SF_vars(Enter(r) /\ st'[r] = "joined")
 \* C05
-DialSound == dial = "done" => result = "X"
-DialLive == (<>[](owner = "X")) => <>(dial = "done" /\ result = "X")
+DialSound == \A r \in Req : st[r] = "done" => result[r] = Target[r]
+\* once the target owns the address for good and no link to someone else blocks it, the request is eventually satisfied
+DialLive == \A r \in Req : (<>[](owner = Target[r] /\ linkAt \in {"", Target[r]})) => <>(st[r] = "done" \/ linkAt = Target[r])
 =============================================================================
